@@ -21,8 +21,13 @@ from . import modes as M
 from . import statetrace
 from .replay import write_cfg
 
-FAMILIES_QUICK = [("stack1", 3, 60), ("stackdeep", 3, 40), ("trivia2", 3, 60), ("mods", 3, 40), ("core2", 3, 60), ("trivfx", 3, 60)]
-FAMILIES_THOROUGH = [("stack1", 3, 600), ("stackdeep", 3, 400), ("trivia2", 3, 600), ("trivia3", 3, 300), ("mods", 3, 400), ("core2", 3, 0), ("core3", 3, 400), ("stack", 3, 400), ("trivfx", 3, 0), ("names", 3, 300)]
+FAMILIES_QUICK = [("stack1", 3, 60), ("stackdeep", 3, 40), ("trivia2", 3, 60), ("mods", 3, 40), ("core2", 3, 60), ("trivfx", 3, 60), ("tags", 3, 80)]
+FAMILIES_THOROUGH = [("stack1", 3, 600), ("stackdeep", 3, 400), ("trivia2", 3, 600), ("trivia3", 3, 300), ("mods", 3, 400), ("core2", 3, 0), ("core3", 3, 400), ("stack", 3, 400), ("trivfx", 3, 0), ("names", 3, 300), ("tags", 3, 0), ("bounds", 3, 0), ("stacke", 3, 0)]
+
+
+def vm_pairs(ps):
+    """PestVM's <<rule, start, end, children, tag>> -> modes.proj_pair's [rule, start, end, tag, children]."""
+    return [[p[0], p[1], p[2], p[4] or None, vm_pairs(p[3])] for p in ps] if ps != 0 else 0
 
 
 def run(rep: C.Report, pest, thorough: bool) -> None:
@@ -36,13 +41,13 @@ def run(rep: C.Report, pest, thorough: bool) -> None:
     fp_first: dict = {}
     parsers: dict[str, object] = {}
     for fam, maxlen, sample in fams:
-        cfg = write_cfg(f"PestVM_{fam}", {"Family": fam, "MaxLen": maxlen, "Starts": "zero", "Sample": sample}, ["Refines", "Balanced", "Discipline", "RestoreExact", "FurthestInRange", "DeltaAgrees", "Emit"])
+        cfg = write_cfg(f"PestVM_{fam}", {"Family": fam, "MaxLen": maxlen, "Starts": "zero", "Sample": sample}, ["Refines", "Balanced", "Discipline", "RestoreExact", "FurthestInRange", "DeltaAgrees", "TagsFromGrammar", "Emit"])
         lines: list[dict] = []
         st = C.run_tlc("PestVM", cfg, on_line=lambda ln: lines.append(C.decode_printt(ln)), workers=8, extra=["-seed", str(C.SEED + 3)], tag=f"PestVM_{fam}", xss="512m", timeout=2400)
         if st.error:
             raise C.MachineryError(f"PestVM[{fam}]: the machine model does not refine PestSem / breaks its own invariants: {st.error}\n" + "\n".join(st.tail[-25:]))
         C.require_tlc_ok(st, f"PestVM {fam}")
-        rep.add_tlc(st, f"PestVM[{fam}] Refines, Balanced, Discipline, RestoreExact, FurthestInRange, DeltaAgrees (MaxLen={maxlen}, sample={sample or 'all'})")
+        rep.add_tlc(st, f"PestVM[{fam}] Refines, Balanced, Discipline, RestoreExact, FurthestInRange, DeltaAgrees, TagsFromGrammar (MaxLen={maxlen}, sample={sample or 'all'})")
         for r in lines:
             gtext = gast.print_grammar(r["g"], style="min")
             if gtext not in parsers:
@@ -65,9 +70,9 @@ def run(rep: C.Report, pest, thorough: bool) -> None:
             for mode in ("interp", "gen"):
                 sink: list[dict] = []
                 with statetrace.recording(pest, sink, raw=True):
-                    o = M.run_parse(pest, p[mode], "r", text, r["k"], tags=False)
+                    o = M.run_parse(pest, p[mode], "r", text, r["k"], tags=True)
                 got = [{"op": e["op"], "pos": e["pos"], "ustk": e["ustk"], "rdepth": e["rdepth"], "adepth": e["adepth"]} for e in sink if e["op"] != "new"]
-                out_ok = (o.get("ok") is True and o["pairs"] == r["out"]) or (o.get("ok") is False and r["out"] == 0)
+                out_ok = (o.get("ok") is True and o["pairs"] == vm_pairs(r["out"])) or (o.get("ok") is False and r["out"] == 0)
                 if o.get("ok") is False and r["out"] == 0:
                     fp_total[mode] += 1
                     fp_agree[mode] += o["fpos"] == r["fp"]
